@@ -163,9 +163,9 @@ def assembly(ctx, crate, clause):
                sample={"hash_term": show(t)[:200]})
 
 
-def clamp(ctx, crate):
+def clamp(ctx, crate, HV2="nested::Layer::hash_v2"):
     clause = "clamp"
-    HV2 = "nested::Layer::hash_v2"; SRC = "nested::Layer::d0h_lh_in_d0c"; BUILD = "nested::Layer::build_hash_from_parts"
+    SRC = "nested::Layer::d0h_lh_in_d0c"; BUILD = "nested::Layer::build_hash_from_parts"
     b = ctx.anchor(crate, HV2, clause)
     if b is None: return
     e = Engine(crate, opaque={SRC, BUILD}); e.run(HV2)
@@ -187,8 +187,15 @@ def run(ctx):
     cfgs = ["rel"] if ctx.tier == "quick" else ["rel", "dbg"]
     for cfg in cfgs:
         crate = ctx.crate(cfg)
-        for fn in ("nested::hash", "nested::Layer::hash", "nested::Layer::hash_v2", "nested::Layer::hash_with_dxdy", "nested::hash_with_dxdy"):
-            check_float_domain_guard(ctx, crate, fn, "lat", -HALF_PI, HALF_PI, "latitude-guard", key="%s:lat[%s]" % (fn, cfg))
+        # every route from a position to a NESTED cell number: the free functions and the Layer methods
+        # named hash* / bilinear_interpolation (found in the crate, so a new variant is read too)
+        import re as _re
+        routes = sorted(p_ for p_ in crate.bodies if _re.match(r"^nested::(Layer::)?(hash\w*|bilinear_interpolation)$", p_)
+                        and {"lon", "lat"} <= set(crate.body(p_).param_names()))
+        for fn in routes:
+            check_float_domain_guard(ctx, crate, fn, "lat", -HALF_PI, HALF_PI, "latitude-guard", key="%s:lat[%s]" % (fn, cfg),
+                                     engine_kw={"opaque": {"nested::Layer::neighbours"}} if fn.endswith("bilinear_interpolation") else None)
+        ctx.floor("position-to-cell routes[%s]" % cfg, len(routes), 9)
     crate = ctx.crate("rel")
     base_cell_bound(ctx, crate, "base-cell<=11")
     reduction(ctx, crate, "nested::Layer::xpm1_and_q", "longitude-reduction")
@@ -198,6 +205,7 @@ def run(ctx):
     # the rounding clamp i, j == nside -> nside - 1 (a necessary condition of "below 12*4^depth":
     # h + l can round up to exactly 2.0 on the NE / NW border of a base cell) — shared with C02 P4
     clamp(ctx, crate)
+    if crate.body("nested::Layer::hash_dxdy_v2") is not None: clamp(ctx, crate, "nested::Layer::hash_dxdy_v2")     # the sibling route with offsets
     ctx.not_decided("containment of the position in the returned cell; i, j < nside (float rounding of sin/cos/products); behaviour 1-2 ulp around cell borders")
     ctx.assume("C18 (checked separately): ZOrderCurve::ij2h is the bit interleave")
     from rules import cancellation
